@@ -12,6 +12,9 @@ import PGV.Props.C05
 #print axioms PGV.Props.C05.C05_verdict_int
 #print axioms PGV.Props.C05.C05_verdict_float
 #print axioms PGV.Props.C05.C05_accepts_sound
+#print axioms PGV.Props.C05.C05_in_canonical_rendering
+#print axioms PGV.Props.C05.C05_unique_canonical_rendering
+#print axioms PGV.Props.C05.C05_ints_slice
 #print axioms PGV.Props.C05.C05_timefmt_year
 #print axioms PGV.Props.C05.C05_timefmt_year2month
 #print axioms PGV.Props.C05.C05_timefmt_date
